@@ -3558,6 +3558,11 @@ handle_request(coap_context_t *context, coap_session_t *session, coap_pdu_t *pdu
                                /* context is being freed off */
                                goto finish);
   }
+#if COAP_WITH_OBSERVE_PERSIST
+  /* The request is only there for resources the handler itself creates */
+  context->unknown_pdu = NULL;
+  context->unknown_session = NULL;
+#endif /* COAP_WITH_OBSERVE_PERSIST */
 
   /* Check validity of response code */
   if (!coap_check_code_class(session, response)) {
